@@ -45,7 +45,7 @@ def cases(draw, tier):
         argv = ["redo-ifchange"] + ts
         js = {"tokens": draw(st.integers(0, 4)), "held": 0, "high": draw(st.integers(0, 1)) == 1}
     return {"project": proj, "invs": [{"argv": argv, "cwd": "", "env": env, "jobserver": js}], "targets": ts,
-            "kind": kind, "schedule": draw(sgen.schedule()),
+            "kind": kind, "prebuild": draw(st.integers(0, 1)) == 1, "schedule": draw(sgen.schedule()),
             "sopts": {"coincide": draw(st.integers(0, 2)) > 0, "token_games": False,
                       "patient": draw(st.integers(0, 3)) == 0}}
 
@@ -63,6 +63,15 @@ def run_case(case, tier):
     r = sched.SchedRunner(case, tag="c07p")
     serial = None
     try:
+        pre_ts = hist.M._dedup(case["targets"])
+        if case.get("prebuild"):
+            # a previous complete serial build, then the common source is edited: the parallel run under test is a
+            # *rebuild* (reaches the out-of-band / checksum paths), not a first build
+            pr = runner.run_cmd(r.disk, ["redo-ifchange"] + pre_ts, env_extra=r.invs[0].spec["env"])
+            if pr.rc != 0:
+                raise runner.Inconclusive("prebuild failed")
+            r.disk.take_trace()
+            r.disk.write("s0", P.source_content("s0", 1))
         r.run()
         inv = r.invs[0]
         out.commands = 1
@@ -82,6 +91,12 @@ def run_case(case, tier):
             return out
         m = M.Model(case["project"])
         ts = hist.M._dedup(case["targets"])
+        if case.get("prebuild"):
+            m.cmd_ifchange(ts)
+            m.user_write("s0", P.source_content("s0", 1))
+            out.events["c07:rebuild-after-edit"] += 1
+            if m.oob_used or hist.has_nested_csum(m):
+                pass
         ok_model = m.cmd_redo(ts) if case["kind"] == "redo" else m.cmd_ifchange(ts)
         requesters = {}
         for dof, spec in case["project"]["dofiles"].items():
@@ -104,6 +119,8 @@ def run_case(case, tier):
             out.events["c07:>=2-scripts-alive-at-once"] += 1
         if r.coincidences:
             out.events["c07:coincidence"] += 1
+        if m.oob_used:
+            out.events["c07:out-of-band-path"] += 1
         ctx = {"argv": inv.spec["argv"], "rc": inv.rc, "text": text[-1500:], "decisions": r.tl.decisions[-30:],
                "starts": dict(r.tl.starts), "model_executed": m.executed}
         # (1) at most once per run
@@ -134,6 +151,9 @@ def run_case(case, tier):
         # (3) recorded dependency state == that of a real serial build in a sibling directory
         serial = P.Disk(hist.scratch_dir("c07s"))
         serial.materialize(case["project"])
+        if case.get("prebuild"):
+            runner.run_cmd(serial, ["redo-ifchange"] + ts, env_extra=inv.spec["env"])
+            serial.write("s0", P.source_content("s0", 1))
         sargv = ["redo", "-j1"] + ts if case["kind"] == "redo" else ["redo-ifchange"] + ts
         sr = runner.run_cmd(serial, sargv, env_extra=inv.spec["env"])
         if sr.rc != inv.rc:
@@ -144,9 +164,14 @@ def run_case(case, tier):
         if a != b:
             diff_f = [x for x in a[0] if x not in b[0]] + [("serial-only",) + x for x in b[0] if x not in a[0]]
             diff_d = [x for x in a[1] if x not in b[1]] + [("serial-only",) + x for x in b[1] if x not in a[1]]
+            # is every differing edge (t -> s) one whose s is anyway in t's dependency closure?
+            within = all((x[-3] in m.targets and x[-2] in m.closure(x[-3])) for x in diff_d)
             out.violation = {"property": "C07", "clause": "dependency-state-differs-from-serial", "step": 0,
                              "detail": dict(ctx, files=diff_f[:10], deps=diff_d[:10]),
-                             "sig": {"symptom": "db-state"}}
+                             "sig": {"symptom": "db-state", "deps_only": not diff_f,
+                                     "extra_edges_all_within_closure": within,
+                                     "out_of_band": bool(m.oob_used) or "@@REDO:check:" in text
+                                     or "@@REDO:check:" in sr.text()}}
             return out
         # (4) a following redo-ifchange runs nothing but always-targets, in the parallel tree
         r.disk.take_trace()
